@@ -114,21 +114,40 @@ def rule_allocnull(ctx, R, F):
     fs = F.funcs(r'^randomx::(AlignedAllocator<\d+>|LargePageAllocator)::allocMemory$') + F.funcs(r'::operator new$') + F.funcs(r'^randomx::JitCompiler\w+::JitCompiler\w+$')
     for f in fs:
         R.saw(fn=f['q'])
-        g = CFG(f)
-        # find `x = alloc(...)` then `if (x == nullptr) throw`
-        ifs = [x for x in walk(f['body']) if x['k'] == 'If']
-        ok = False
-        found = None
-        for i in ifs:
-            c = strip_all(i['c'])
-            if c['k'] == 'Bin' and c['op'] == '==' and (strip_all(c['r'])['k'] == 'Null' or strip_all(c['l'])['k'] == 'Null'):
-                thr = [x for x in walk(i['t']) if x['k'] == 'Throw']
-                if thr:
-                    ok = True
-                    found = show(c)
-        # the allocation result must not be returned on a path that bypasses the test
-        rets = [x for x in walk(f['body']) if x['k'] == 'Return']
-        R.check(ok, strip_targs(f['q']) + ('<%s>' % f['q'].split('<', 1)[1].rsplit('>', 1)[0] if '<' in f['q'] else ''), '%s:%d' % (f['file'], f['line']), expected='if (ptr == nullptr) throw ...', found=found)
+        import decoder as _dec
+
+        def null_atom(c):
+            """(expression text, True if the condition holds when the expression is null) for X == nullptr, X != nullptr, !X, X"""
+            c = strip_all(c)
+            pol = False       # `if (X)` holds when X is NOT null
+            while c['k'] == 'Un' and c.get('op') == '!':
+                pol = not pol
+                c = strip_all(c['e'])
+            if c['k'] == 'Bin' and c['op'] in ('==', '!='):
+                l, r = strip_all(c['l']), strip_all(c['r'])
+                for x_, y_ in ((l, r), (r, l)):
+                    if y_['k'] == 'Null' or val(y_) == 0:
+                        return show(x_), (c['op'] == '==') != pol
+                return None
+            if c['k'] in ('Ref', 'Mem') and '*' in (c.get('ty') or ''):
+                return show(c), pol
+            return None
+        tested = set()
+        bad = []
+        for p_ in _dec.paths(f['body']):
+            nulls = set()
+            for c_, t_ in p_.conds:
+                na = null_atom(c_)
+                if na is not None:
+                    tested.add(na[0])
+                    if na[1] == t_:
+                        nulls.add(na[0])
+            throws = any(x['k'] == 'Throw' for e_ in p_.events if not isinstance(e_, tuple) for x in walk(e_))
+            if nulls and not throws:
+                bad.append('a path on which %s is null does not throw' % sorted(nulls))
+        ok = bool(tested) and not bad
+        found = ('null tests on %s' % sorted(tested)) if ok else (bad[:2] or 'no test of the allocation result against nullptr')
+        R.check(ok, strip_targs(f['q']) + ('<%s>' % f['q'].split('<', 1)[1].rsplit('>', 1)[0] if '<' in f['q'] else ''), '%s:%d' % (f['file'], f['line']), expected='every path on which the allocation result is null ends in a throw', found=found)
     # VmBase::allocate relies on it
     for f in F.funcs(r'^randomx::VmBase<.*>::allocate$'):
         cs = [c for c in calls(f['body']) if c.get('name') == 'allocMemory']
